@@ -257,3 +257,20 @@ def depth(t):
     elif k in ("array", "vec", "option"): subs = [t[1]]
     elif k == "result": subs = [t[1], t[2]]
     return 1 + max([depth(x) for x in subs], default=0)
+
+
+def neighbourhood(decls, with_heap=False):
+    """Systematic small types around the classification boundary (1-tuples, arrays, pairs, one-field structs of
+    every leaf, incl. bool and small enums; optionally Vecs).  Used as the focused SEARCH when the tie to the
+    source broke (facts translator failed or a proof no longer checks)."""
+    S = lambda fs: ("struct", decls.add("struct", fs), fs)
+    E = lambda vs: ("enum", decls.add("enum", vs), vs)
+    u64, u8, unit = ("u64",), ("u8",), ("unit",)
+    leaves = [("bool",), u8, ("u16",), ("u32",), u64, ("b256",), ("strarr", 5), ("strarr", 8),
+              E([u64, u64]), E([unit, unit]), E([u8, u64]), ("option", u64), ("tuple", [u64, u64])]
+    out = []
+    for L in leaves:
+        out += [("tuple", [L]), ("array", L, 2), ("array", ("tuple", [L]), 2), ("tuple", [L, L]), S([L])]
+        if with_heap:
+            out += [("vec", L), ("vec", ("tuple", [L]))]
+    return out
